@@ -18,7 +18,7 @@ PID = "C17"
 RULE = (
     "A: loop nests of depth 1..3; per loop (lb,ub,step) from lb{0,1} x ub{0,1,2,3,4,5,7} x step{1,2,3} (depth 3: reduced menu), each bound constant or a "
     "run-time argument; per body position before/after the inner loop: nothing / tagged side-effecting op using all visible induction variables / pure op "
-    "feeding a later tagged op. B: allocation/dim/subview placements in single and nested loops x run-time sizes. distinct = distinct (program, event "
+    "feeding a later tagged op. B: allocation/dim/subview placements in single and nested loops x run-time sizes, and sizes read from a memory cell that the loop body does or does not update. distinct = distinct (program, event "
     "trace); non-trivial = the pass changed the IR"
 )
 ASSUMPTIONS = [
@@ -113,7 +113,20 @@ def run_events(mod, args, budget=60000):
 
     from machines.memview import handlers as mem_handlers
 
-    h = {"test.op": h_test}
+    cells = {}
+
+    def _cell(it, op, ref, idx):
+        v = it.get(ref)
+        return (v.buf, v.offset + sum(it.get(i) * s_ for i, s_ in zip(idx, v.strides)))
+
+    def h_load(it, op):
+        return [cells.get(_cell(it, op, op.operands[0], op.operands[1:]), ("undefined-memory",))]
+
+    def h_store(it, op):
+        cells[_cell(it, op, op.operands[1], op.operands[2:])] = it.get(op.operands[0])
+        return []
+
+    h = {"test.op": h_test, "memref.load": h_load, "memref.store": h_store}
     h.update(mem_handlers())
     it = Interp(handlers=h, budget=budget)
     try:
@@ -254,6 +267,29 @@ def alloc_programs():
             u = use.format(ops="%a, %i", k=1, tys=f"{aty}, index")
             body = ltext.replace("{A}", atext).replace("{U}", u)
             variants.append((f"{an}/{ln}", prog(body)))
+    # sizes kept in memory: a cell allocated before the loop, read (and, in most variants, updated) inside the loop body; a read is only loop invariant
+    # if nothing in the loop writes the cell
+    ct = "memref<1xindex>"
+    pre = f"  %cell = memref.alloc() : {ct}\n  memref.store %c1, %cell[%c0] : {ct}\n"
+    ld = f"%cur = memref.load %cell[%c0] : {ct}"
+    mk = '%a = memref.alloc(%cur) : memref<?x4xi32>\n    "test.op"(%a, %i, %cur) {verif.id = 1 : i32} : (memref<?x4xi32>, index, index) -> ()'
+    upd = f"%nx = arith.addi %cur, %cur : index\n    memref.store %nx, %cell[%c0] : {ct}"
+    updi = f"memref.store %i, %cell[%c0] : {ct}"
+    bodies = {
+        "load_use_update": f"{ld}\n    {mk}\n    {upd}",
+        "update_first": f"{updi}\n    {ld}\n    {mk}",
+        "load_only": f"{ld}\n    {mk}",
+        "update_in_if": f"{ld}\n    {mk}\n    %cnd = arith.cmpi eq, %i, %c1 : index\n    scf.if %cnd {{\n    {upd}\n    }}",
+    }
+    cell_loops = {
+        "single": "  scf.for %i = %c0 to %c3 step %c1 {\n    {B}\n  }\n",
+        "single_dynub": "  scf.for %i = %c0 to %n step %c1 {\n    {B}\n  }\n",
+        "nested_inner": "  scf.for %j = %c0 to %c2 step %c1 {\n  scf.for %i = %c1 to %c3 step %c1 {\n    {B}\n  }\n  }\n",
+        "nested_outer": "  scf.for %i = %c0 to %c3 step %c1 {\n  scf.for %j = %c0 to %c2 step %c1 {\n    {B}\n  }\n  }\n",
+    }
+    for bn, btext in bodies.items():
+        for ln, ltext in cell_loops.items():
+            variants.append((f"cell_{bn}/{ln}", prog(pre + ltext.replace("{B}", btext))))
     _ALLOC.extend(variants)
     return _ALLOC
 
